@@ -233,6 +233,7 @@ type rpcState struct {
 	sStarted     map[int][]int // per attempt
 	sSubmitted   map[int][]int
 	srvReturned  map[int]*status.Status
+	srvRetAt     map[int]time.Time
 	srvRecv      map[int]int // messages received by handler per attempt
 	clientStatus *status.Status
 	clientDone   bool
@@ -349,7 +350,7 @@ func Run(e *core.Env, sc *Scenario) {
 	}
 	for i := range sc.RPCs {
 		r := &sc.RPCs[i]
-		w.rpcs[r.ID] = &rpcState{r: r, sStarted: map[int][]int{}, sSubmitted: map[int][]int{}, srvReturned: map[int]*status.Status{}, srvRecv: map[int]int{}, srvMD: map[int]metadata.MD{}, srvDeadline: map[int]time.Time{}, srvCtxDoneAt: map[int]time.Time{}, waitingCtx: map[int]bool{}}
+		w.rpcs[r.ID] = &rpcState{r: r, sStarted: map[int][]int{}, sSubmitted: map[int][]int{}, srvReturned: map[int]*status.Status{}, srvRetAt: map[int]time.Time{}, srvRecv: map[int]int{}, srvMD: map[int]metadata.MD{}, srvDeadline: map[int]time.Time{}, srvCtxDoneAt: map[int]time.Time{}, waitingCtx: map[int]bool{}}
 	}
 
 	if !w.initExts() {
@@ -767,9 +768,14 @@ func (w *run) api(st *rpcState, name string, f func() error) error {
 		// blocked across the deadline: the error is DEADLINE_EXCEEDED unless a
 		// real final status arrived in the same instant
 		if c := status.Code(err); c != codes.DeadlineExceeded && c != codes.Canceled {
+			// acceptable only if a handler produced exactly this status so late
+			// that it can have reached the client in the same instant as the
+			// deadline (within the network's latency/stall bounds); a status
+			// from an earlier attempt is not
+			lag := time.Duration(w.sc.Net.LatencyNs+w.sc.Net.StallNs) + 10*time.Millisecond
 			ok := false
-			for _, s := range st.srvReturned {
-				if s != nil && s.Code() == c {
+			for att, s := range st.srvReturned {
+				if s != nil && s.Code() == c && !st.srvRetAt[att].Before(st.deadline.Add(-lag)) {
 					ok = true
 				}
 			}
@@ -844,6 +850,7 @@ func (w *run) handler(_ any, ss grpc.ServerStream) error {
 	e.Logf("rpc %d handler start att=%d", r.ID, att)
 	ret := func(s *status.Status) error {
 		st.srvReturned[att] = s
+		st.srvRetAt[att] = time.Now()
 		e.Logf("rpc %d handler att=%d returns %v", r.ID, att, s.Code())
 		return s.Err()
 	}
